@@ -26,9 +26,6 @@ NUCLEI = [("H", None, 0.5), ("H", 2, 1.0), ("N", None, 1.0), ("Na", None, 1.5), 
 
 
 def classify(kind, case, detail):
-    if kind == "spectrum" and case.get("broad") is None and (case.get("orient", {}).get("kind") == "crystal" or not case.get("has_orient")) \
-            and "identically zero" in detail:
-        return "C12-F12"
     if kind == "spectrum" and case.get("orient", {}).get("mode") == "octant" and "centre of gravity" in detail and not case.get("axis_aligned"):
         return "C12-F12c"
     return None
@@ -292,6 +289,22 @@ def check_case(case, collect=None):
                 tol = 0.002 * span + 0.5 * dx
                 if abs(cog - want) > tol:
                     probs.append("centre of gravity %.5f, isotropic value %.5f (tolerance %.5f)" % (cog, want, tol))
+        if (not powder or not has_orient) and broad is None:
+            # unbroadened lines: each in the bin that holds it (repaired C12-F12), all lines with the same weight
+            pk = cs_peaks(case, c)
+            g = np.zeros(bins)
+            edgy = False
+            for p in pk:
+                u_ = (p[0] - lo) / dx
+                if abs(abs(u_ - round(u_)) - 0.5) < 1e-6:
+                    edgy = True
+                if 0 <= int(round(u_)) < bins:
+                    g[int(round(u_))] += 1
+            if g.sum() > 0 and not edgy:
+                g *= n * bins / g.sum()
+                if not np.allclose(g, s, atol=1e-6 * max(1.0, s.max())):
+                    j = int(np.argmax(np.abs(g - s)))
+                    probs.append("unbroadened lines are not in the bins holding n.sigma.n: at %.4f the spectrum is %.5f, expected %.5f" % (ax[j], s[j], g[j]))
         if (not powder or not has_orient) and broad is not None:
             pk = cs_peaks(case, c)
             g = np.zeros(bins)
